@@ -493,17 +493,19 @@ func (e *env) absentAfterT(i, j int) bool {
 	return e.in.Storage == "sparse" && e.c.HasT && e.c.val(e.in.Pat, i, j) == 0
 }
 
-func (e *env) writeThrough() {
+// writeThroughWith: a write to element (i,j) of a reference view changes exactly the owner
+// cell den[i][j] printed by TLC
+func (e *env) writeThroughWith(op string, build func() (Matrix, Matrix), set func(V Matrix, i, j int, v float64)) {
 	c := e.c
-	e.section("WriteThrough", func() {
-		P, V := e.fresh()
+	e.section(op, func() {
+		P, V := build()
 		base := e.pexpect()
 		for i := 0; i < c.Vr; i++ {
 			for j := 0; j < c.Vc; j++ {
 				k := c.Den[i][j]
-				V.At(i, j).SetFloat64(wval)
+				set(V, i, j, wval)
 				if g := V.ConstAt(i, j).GetFloat64(); g != wval {
-					e.bad("WriteThrough", "view_lost_write", wval, g)
+					e.bad(op, "view_lost_write", wval, g)
 					return
 				}
 				x := append([]string{}, base...)
@@ -514,14 +516,37 @@ func (e *env) writeThrough() {
 					if e.absentAfterT(i, j) && canon(g) == canon(base) {
 						what = "absent_cell_after_T_not_shared"
 					}
-					e.bad("WriteThrough", what, vh.M{"write": []int{i, j}, "cell": k, "parent": x}, g)
+					e.bad(op, what, vh.M{"write": []int{i, j}, "cell": k, "parent": x}, g)
 					if what == "parent_differs" {
 						return
 					}
 				}
-				V.At(i, j).SetFloat64(c.val(e.in.Pat, i, j))
+				set(V, i, j, c.val(e.in.Pat, i, j))
 			}
 		}
+	})
+}
+
+func (e *env) writeThrough() {
+	c := e.c
+	e.writeThroughWith("WriteThrough", e.fresh, func(V Matrix, i, j int, v float64) { V.At(i, j).SetFloat64(v) })
+	if e.in.magic() {
+		e.writeThroughWith("MagicWriteThrough", func() (Matrix, Matrix) {
+			p := e.in.parent(c)
+			return p, applyWord(p, c.W, true)
+		}, func(V Matrix, i, j int, v float64) { V.(MagicMatrix).MagicAt(i, j).SetFloat64(v) })
+	}
+	// a write through an iterator positioned on the element
+	e.writeThroughWith("IteratorWriteThrough", e.fresh, func(V Matrix, i, j int, v float64) {
+		if V.ConstAt(i, j).GetFloat64() == 0 {
+			V.At(i, j).SetFloat64(v) // iterators need not visit zero elements
+			return
+		}
+		it := V.IteratorFrom(i, j)
+		if a, b := it.Index(); !it.Ok() || a != i || b != j {
+			panic(fmt.Sprintf("IteratorFrom(%d,%d) is at (%d,%d) ok=%v", i, j, a, b, it.Ok()))
+		}
+		it.Get().SetFloat64(v)
 	})
 	e.section("ReadThrough", func() {
 		P, V := e.fresh()
